@@ -10,7 +10,7 @@ import z3
 
 from pyvc import specz3
 from pyvc.sym import (I, B, A, A2, iv, add, sub, lit, fresh, fresh_seq, Seq, Tup, Mat, Row, Obj, FloatV, NONE, NoneV, const_str,
-                      const_list, seq_eq, const_mat, MaskV, ZipSeq, MaybeFloat, PairSeq, LazySeq, MatLazy, DictV, NpInt, CList)
+                      const_list, seq_eq, const_mat, MaskV, ZipSeq, MaybeFloat, PairSeq, LazySeq, MatLazy, DictV, NpInt, CList, MemList)
 
 Z3_TIMEOUT_MS = int(os.environ.get("PYVC_Z3_TIMEOUT_MS", "20000"))
 CVC5_TIMEOUT_S = int(os.environ.get("PYVC_CVC5_TIMEOUT_S", "40"))
@@ -458,6 +458,8 @@ class Exec:
         return {ast.Eq: a == b, ast.NotEq: a != b, ast.Lt: a < b, ast.LtE: a <= b, ast.Gt: a > b, ast.GtE: a >= b}[type(op)]
 
     def contains(self, container, item, st, line):
+        if isinstance(container, MemList):
+            return container.chi[toint(item)]
         if isinstance(container, DictV):
             return container.has[toint(item)]
         if isinstance(container, Seq) and container.kind == "str":
@@ -1074,6 +1076,8 @@ class Exec:
                 v = Seq("list", "char", v.arr, v.n, v.start, v.delta)      # an empty list that will hold single characters
             if hint == "list_obj" and isinstance(v, Seq) and v.kind == "list" and lit(v.n) == 0:
                 v = Tup([])                                                  # an empty list that will hold strings / arrays
+            if hint == "list_members" and isinstance(v, Seq) and v.kind == "list" and lit(v.n) == 0:
+                v = MemList(z3.K(I, z3.BoolVal(False)))                      # an empty list used as a set: append / membership only
             if hint == "list_counted" and isinstance(v, (Tup, Seq)):
                 v = CList(iv(len(v.items)) if isinstance(v, Tup) else v.n)    # a list of strings / arrays: only its length is tracked
             if hint == "list_pair" and isinstance(v, Seq) and v.kind == "list" and lit(v.n) == 0:
@@ -1310,6 +1314,8 @@ class Exec:
     def havoc_value(self, name, old):
         if isinstance(old, CList):
             return CList(fresh(name + "_n"))
+        if isinstance(old, MemList):
+            return MemList(fresh(name + "_chi", z3.ArraySort(I, B)))
         if isinstance(old, DictV):
             return DictV(fresh(name + "_has", z3.ArraySort(I, B)), fresh(name + "_varr", A2), fresh(name + "_vlen", A),
                          Seq("list", "int", fresh(name + "_order", A), fresh(name + "_order_n")))
@@ -1649,7 +1655,10 @@ class Exec:
             outs += self.drain()
             h.assume(c)
         if spec.get("variant") is None and not is_for:
-            raise Unsupported(f"while loop {n} has no variant")
+            if n not in self.c.get("partial_correctness_loops", ()):
+                raise Unsupported(f"while loop {n} has no variant")
+            self.trusted_used.add(f"{self.qualname}: termination of loop {n} is NOT proved (contract option partial_correctness_loops): every clause of this "
+                                  "contract is about calls that return")
         after = []
         body_outs = []
         if self.feasible(h):
